@@ -27,7 +27,10 @@ def schema_xsd(ns, version='1.0'):
             '<xs:simpleType name="numOrDate"><xs:union memberTypes="xs:int xs:date"/></xs:simpleType>'
             '<xs:simpleType name="codeType"><xs:restriction base="%snumOrDate"><xs:pattern value="[0-9]{4}(-[0-9]{2}-[0-9]{2})?"/>'
             '</xs:restriction></xs:simpleType>'
-            '<xs:complexType name="itemType"><xs:sequence><xs:element name="value" type="xs:int"/>'
+            '<xs:complexType name="valueType"><xs:simpleContent><xs:extension base="xs:int"><xs:attribute name="lang" type="xs:string"LANGINH/>'
+            '</xs:extension></xs:simpleContent></xs:complexType>'
+            # (a simple-content element that may carry the inheritable attribute: XSD 1.1 processes it with a copy of the context)
+            '<xs:complexType name="itemType"><xs:sequence><xs:element name="value" type="VTP:valueType"/>'
             '<xs:element name="code" type="%scodeType" minOccurs="0"/><xs:element name="size" type="%snumOrDate" minOccurs="0"/>'
             '<xs:element name="tag" type="xs:token" minOccurs="0" maxOccurs="unbounded"/></xs:sequence>'
             '<xs:attribute name="n" type="xs:int" use="required"/>'
@@ -47,7 +50,7 @@ def schema_xsd(ns, version='1.0'):
             '<xs:element name="root"><xs:complexType><xs:sequence><xs:element name="section" type="%ssectionType" '
             'maxOccurs="unbounded">UNIQ</xs:element></xs:sequence></xs:complexType></xs:element></xs:schema>' % (tns, p, p, p, p, p, p, p, p)
             ).replace('NOTEALT', '<xs:alternative test="@lang=\'x\'" type="xs:int"/>' if version == '1.1' else ''
-            ).replace('LANGINH', ' inheritable="true"' if version == '1.1' else ''
+            ).replace('LANGINH', ' inheritable="true"' if version == '1.1' else '').replace('VTP:', p
             ).replace('UNIQ', '<xs:unique name="UI1"><xs:selector xpath="%sitem|%sentry"/><xs:field xpath="@n"/></xs:unique>' % (p, p), 1
             ).replace('UNIQ', '<xs:unique name="UI2"><xs:selector xpath="%sitem|%sentry"/><xs:field xpath="@n"/></xs:unique>' % (p, p), 1
             ).replace('UNIQ', '<xs:unique name="UI3"><xs:selector xpath="%sitem|%sentry"/><xs:field xpath="@n"/></xs:unique>' % (p, p), 1))
@@ -60,7 +63,7 @@ def gen_doc(rng, depth=0):
     def item(tag='item'):
         counter[0] += 1
         return {'tag': tag, 'attrs': dict({'n': str(counter[0])}, **({'kind': rng.choice('ab')} if rng.random() < 0.5 else {})),
-                'text': None, 'kids': [{'tag': 'value', 'attrs': {}, 'text': str(rng.randint(0, 99)), 'kids': []}] +
+                'text': None, 'kids': [{'tag': 'value', 'attrs': {'lang': 'en'} if rng.random() < 0.3 else {}, 'text': str(rng.randint(0, 99)), 'kids': []}] +
                 # two union-typed siblings: code is restricted by a pattern that the values of size do not match
                 ([{'tag': 'code', 'attrs': {}, 'text': rng.choice(['2024', '2024-02-29', '1999']), 'kids': []}] if rng.random() < 0.5 else []) +
                 ([{'tag': 'size', 'attrs': {}, 'text': rng.choice(['7', '12', '123456']), 'kids': []}] if rng.random() < 0.6 else []) +
